@@ -70,6 +70,12 @@ def run(ck):
                     nets = state_networks(it, s)
                     ck.check(len(items) == len(nets), "C03.R1", inst + ":one gradient per network [%s]" % _c(p), site, "%d gradients returned for %d networks" % (len(items), len(nets)))
                     for n, g in zip(nets, items):
+                        if isinstance(g, VTens) and g.term is not None:
+                            # the statement allows one regulariser: the 1e-8 added to the rotated probabilities of a mixed state
+                            from fractions import Fraction
+
+                            unregularised(ck, "C03.R1", inst, site, "gradient of %s [%s]" % (n, _c(p)), g.term, key="C03.R1|%s|%s|regularised" % (cls, name.split("/")[0]),
+                                          allow=(lambda r_: r_[0] == "eps" and abs(float(r_[1]) - 1e-8) < 1e-20) if cls == "DensityMatrix" else None)
                         if isinstance(g, VTens) and g.shape is not None:
                             want = (layout_dim(it, it.get_attr(s, n, None)),)
                             ok = len(g.shape) == 1 and __import__("qsa.values", fromlist=["dims_equal"]).dims_equal(g.shape[0], want[0])
@@ -302,6 +308,7 @@ def run(ck):
 
             paths = [p for p in paths_of(prog, th, sticky=True, max_paths=20, stubs={cls + ".rotated_gradient": stub_rotated}) if p.outcome == "return"]
             ck.check(len(paths) >= 2, "C03.R4", inst + ":rotated and reference-basis groups", gsite, "expected a path for rotated groups and one for all-Z groups, found %d" % len(paths))
+            check_index_truthiness(ck, "C03.R4", inst, gsite, paths)
             for p in paths:
                 it = p.interp
                 s, r = p.value
